@@ -305,7 +305,7 @@ def judge(ctx, jl, chunk=12000, parallel=4):
     return out
 
 
-def corrupt(ctx, rreqs, routs, hs, couts):
+def corrupt(ctx, rreqs, routs, hs, couts, creqs=None, states=None):
     """binding self-test (VERIF_C04_CORRUPT=1): falsify one recorded observation of each kind; the check must object"""
     done = False
     for n, (d, hi, full) in enumerate(rreqs):
@@ -320,9 +320,10 @@ def corrupt(ctx, rreqs, routs, hs, couts):
                     ctx.log("self-test: removed a label-index answer from restart replay %d" % n)
     done = False
     for n in sorted(couts):
+        op = states[creqs[n]["si"]]["cases"][creqs[n]["ci"]]["call"]["op"]
         for cr in couts[n].get("crashes", []):
             for g, r in (cr.get("obs") or {}).items():
-                if r.get("E") and not done and cr["k"] > 1:
+                if r.get("E") and not done and op.startswith("Del"):
                     r["E"].pop(sorted(r["E"])[0])
                     done = True
                     ctx.log("self-test: removed an edge from the listing read back after crash point %d of case %d" % (cr["k"], n))
@@ -406,7 +407,7 @@ def _run(ctx):
 
     ctx.log("explored the crash points of %d (history, call) cases" % len(creqs))
     if os.environ.get("VERIF_C04_CORRUPT") == "1":
-        corrupt(ctx, rreqs, routs, hs, couts)
+        corrupt(ctx, rreqs, routs, hs, couts, creqs, states)
 
     # ---------------------------------------------------------------- judgement by the specification
     jl = []            # lines for TLC
